@@ -180,6 +180,16 @@ TWINS = [
     ('det-closed-form-typo', 'C16', 'base/transformsNd.py', "    if m.dtype.kind == 'O':\n        return Matrix(m).det()", "    if m.dtype.kind == 'O':\n        if m.shape == (2, 2):\n            return m[0, 0] * m[1, 1] + m[0, 1] * m[1, 0]\n        return Matrix(m).det()", 'R16', 'det'),
     ('se3-inv-memo', 'C06', 'pose3d.py', '        if len(self) == 1:\n            return SE3(base.trinv(self.A), check=False)', '        if len(self) == 1:\n            if getattr(self, "_inv", None) is None:\n                self._inv = SE3(base.trinv(self.A), check=False)\n            return self._inv', 'R9', 'SE3.inv'),
     ('se3-Ad-memo', 'C20', 'pose3d.py', '        return base.adjoint(self.A)', '        if getattr(self, "_Ad", None) is None:\n            self._Ad = base.adjoint(self.A)\n        return self._Ad', 'R9', 'SE3.Ad'),
+    # ---- C03 structural clauses
+    ('trlog-general-transposed', 'C03', 'base/transforms3d.py', '            skw = (R - R.T) / 2 / math.sin(theta)', '            skw = (R.T - R) / 2 / math.sin(theta)', 'R19', 'trlog'),
+    ('trlog-acos-arg', 'C03', 'base/transforms3d.py', '            theta = math.acos((np.trace(R) - 1) / 2)', '            theta = math.acos((np.trace(R) - 2) / 2)', 'R19', 'trlog'),
+    ('trlog-twist-order', 'C03', 'base/transforms3d.py', '                    return np.r_[v, w]', '                    return np.r_[w, v]', 'R21', 'trlog'),
+    ('trlog-ginv-sign', 'C03', 'base/transforms3d.py', 'Ginv = np.eye(3) - S / 2 +', 'Ginv = np.eye(3) + S / 2 +', 'R21', 'trlog'),
+    ('se3exp-matrix-rows', 'C03', 'pose3d.py', '        elif base.ismatrix(S, (4, 4)):\n            return cls(base.trexp(S, check=check), check=False)\n', '', 'R21', 'SE3.Exp'),
+    ('se2exp-list-vector', 'C03', 'pose2d.py', '        if isinstance(S, (list, tuple)) and not argcheck.isvector(S, 3):', '        if isinstance(S, (list, tuple)):', 'R21', 'SE2.Exp'),
+    ('trexp-V-sign', 'C03', 'base/transforms3d.py', '        V = np.eye(3) * theta + (1.0 - math.cos(theta)) * skw + (theta - math.sin(theta)) * skw @ skw', '        V = np.eye(3) * theta + (1.0 - math.cos(theta)) * skw + (theta + math.sin(theta)) * skw @ skw', 'R16', 'trexp'),
+    ('log-drops-twist', 'C03', 'super_pose.py', '            log = [base.trlog(x, twist=twist) for x in self.data]', '            log = [base.trlog(x) for x in self.data]', 'R21', 'SMPose.log'),
+    ('trlog-halfturn-diag', 'C03', 'base/transforms3d.py', '            col = R[:, k] + I[:, k]\n            w = col / np.sqrt(2 * (1 + mx))', '            w = np.sqrt((diagonal + 1) / 2)', 'R17', 'trlog'),
 ]
 
 
